@@ -69,6 +69,7 @@ SinglePrim(c) ==
       [] c.op = "chdir" -> "Chdir" [] c.op = "stat" -> "Stat" [] c.op = "lstat" -> "Lstat"
       [] c.op = "readlink" -> "Readlink" [] c.op = "evalsymlinks" -> "EvalSymlinks" [] c.op = "getwd" -> "Getwd"
       [] c.op = "createtemp" -> "CreateTemp" [] c.op = "open" -> "OpenFile" [] c.op = "walk" -> "WalkDir"
+      [] c.op \in {"exists", "direxists", "isdir"} -> "Stat"
       [] c.op = "read" -> "FileRead" [] c.op = "readat" -> "FileReadAt" [] c.op \in {"write", "writestring"} -> "FileWrite"
       [] c.op = "writeat" -> "FileWriteAt" [] c.op = "seek" -> "FileSeek" [] c.op = "ftruncate" -> "FileTruncate"
       [] c.op = "fstat" -> "FileStat" [] c.op = "fsync" -> "FileSync" [] c.op = "fchmod" -> "FileChmod"
@@ -299,6 +300,9 @@ SubOutcomes(impl, st, c, x) ==
                    [x EXCEPT !.vcwd = SubSeq(o.st.cwdn, Len(x.dir) + 1, Len(o.st.cwdn))])
          ELSE SubX(o, x)
          : o \in Outcomes(impl, st, SubTranslate(x, c))}
+    ELSE IF c.op = "glob" THEN
+        {SubX(Strict(GlobK(st, SubTranslate(x, c), IF c.p.abs THEN Len(x.dir) ELSE 100 + Len(x.dir) + Len(x.vcwd))), x)}
+    ELSE IF c.op = "walk" THEN {SubX(Strict(WalkDirK(st, SubTranslate(x, c), Len(x.dir))), x)}
     ELSE \* every other call: the parent's call on the translated path under the view's umask
         {SubX([o EXCEPT !.st = [@ EXCEPT !.umask = st.umask], !.res.path = ToVirtualD(x.dir, @)], x)
          : o \in Outcomes(impl, [st EXCEPT !.umask = x.umask], SubTranslate(x, c))}
